@@ -123,6 +123,12 @@ func (b *batchedEvents) UnmarshalMsg(bts []byte) (o []byte, err error) {
 		err = msgp.WrapError(err)
 		return
 	}
+	// every event takes at least one byte, so a header that announces more events than
+	// there are bytes left is malformed; do not let it size the allocation
+	if uint64(totalValues) > uint64(len(bts)) {
+		err = msgp.WrapError(msgp.ErrShortBytes)
+		return
+	}
 	b.events = make([]batchedEvent, totalValues)
 	for i := range b.events {
 		b.events[i].cfg = b.cfg
